@@ -4,201 +4,221 @@ Require Import WV.model.C19Cache.
 Import ListNotations.
 
 Section CacheProofs.
-  Variables Url Variant Bytes Data Ratio : Type.
+  Variables Url Key Mime Bytes Data Ratio : Type.
   Variable url_eqb : Url -> Url -> bool.
   Hypothesis url_eqb_eq : forall a b, url_eqb a b = true <-> a = b.
+  Variable key_eqb : Key -> Key -> bool.
+  Hypothesis key_eqb_eq : forall a b, key_eqb a b = true <-> a = b.
   Variable is_one : Ratio -> bool.
   Variable fetch : Url -> option Bytes.
-  Variable decode : Url -> Bytes -> Variant -> option Data.
+  Variable decode : Url -> Bytes -> Key -> Mime -> option Data.
   Variable resample : Data -> Ratio -> Data.
 
-  Notation state := (state Url Data).
-  Notation op := (op Url Variant Ratio).
-  Notation step := (step Url Variant Bytes Data Ratio url_eqb is_one fetch decode resample).
-  Notation run := (run Url Variant Bytes Data Ratio url_eqb is_one fetch decode resample).
-  Notation cold := (cold Url Variant Bytes Data fetch decode).
-  Notation lookup := (lookup Url url_eqb).
-  Notation variant_of := (variant_of Url Variant Ratio url_eqb).
+  Notation state := (state Url Key Data).
+  Notation op := (op Url Key Mime Ratio).
+  Notation ckey := (ckey Url Key).
+  Notation ckey_eqb := (ckey_eqb Url Key url_eqb key_eqb).
+  Notation step := (step Url Key Mime Bytes Data Ratio url_eqb key_eqb is_one fetch decode resample).
+  Notation run := (run Url Key Mime Bytes Data Ratio url_eqb key_eqb is_one fetch decode resample).
+  Notation cold := (cold Url Key Mime Bytes Data fetch decode).
+  Notation lookup := (lookup Url Key url_eqb key_eqb).
+  Notation mime_of := (mime_of Url Key Mime Ratio url_eqb key_eqb).
+  Notation embed := (embed Data Ratio is_one resample).
 
-  (* every URL is requested with one variant (orientation, mime type, dpi / optimize_images / jpeg_quality) *)
-  Definition one_variant_per_url (h : list op) : Prop :=
-    forall u v v', In (Get u v) h -> In (Get u v') h -> v = v'.
-  (* no dpi down-sampling at write time *)
-  Definition no_resampling_p (h : list op) : Prop :=
-    forall u r, In (Emit u r) h -> is_one r = true.
+  (* every dictionary key - URL, orientation, dpi, optimize_images, jpeg_quality - is requested with one forced mime
+     type, the only argument of a load that is not part of the key *)
+  Definition one_mime_per_key (h : list op) : Prop :=
+    forall u k m m', In (Get u k m) h -> In (Get u k m') h -> m = m'.
+
+  (* what the proofs need: two requests of one key would load the same thing *)
+  Definition consistent_per_key (h : list op) : Prop :=
+    forall u k m m', In (Get u k m) h -> In (Get u k m') h -> cold u k m = cold u k m'.
 
   Definition value_of (x : obs Data) : option Data :=
     match x with OGet y => option_map snd y | OEmit y => y end.
 
-  (* the reference: the operation executed with no cache at all (cold load of the variant asked for; for Emit, of the
-     variant the URL was loaded with) *)
+  (* the reference: the operation executed with no cache at all (cold load of what is asked for; for Emit, of the key
+     with the mime type it was loaded with, embedded with the ratio) *)
   Definition ref_obs (pre : list op) (o : op) : option Data :=
     match o with
-    | Get u v => cold u v
-    | Emit u _ => match variant_of u pre with Some v => cold u v | None => None end
+    | Get u k m => cold u k m
+    | Emit u k r => match mime_of (u, k) pre with Some m => option_map (fun d => embed d r) (cold u k m) | None => None end
     end.
   Fixpoint spec_run (pre h : list op) : list (option Data) :=
     match h with [] => [] | o :: r => ref_obs pre o :: spec_run (pre ++ [o]) r end.
 
-  Lemma url_eqb_refl u : url_eqb u u = true.
-  Proof. apply url_eqb_eq; reflexivity. Qed.
+  Lemma ckey_eqb_eq (a b : ckey) : ckey_eqb a b = true <-> a = b.
+  Proof.
+    destruct a as [u k], b as [u' k']. unfold C19Cache.ckey_eqb. simpl. rewrite andb_true_iff, url_eqb_eq, key_eqb_eq.
+    split; [intros [-> ->]; reflexivity|intros E; inversion E; auto].
+  Qed.
+  Lemma ckey_eqb_refl q : ckey_eqb q q = true.
+  Proof. apply ckey_eqb_eq; reflexivity. Qed.
 
-  Lemma variant_of_app_get u pre u' v :
-    variant_of u (pre ++ [Get u' v]) =
-    match variant_of u pre with Some x => Some x | None => if url_eqb u u' then Some v else None end.
+  Lemma mime_of_app_get q pre u k m :
+    mime_of q (pre ++ [Get u k m]) =
+    match mime_of q pre with Some x => Some x | None => if ckey_eqb q (u, k) then Some m else None end.
   Proof.
-    unfold C19Cache.variant_of. induction pre as [|o pre IH]; simpl.
-    - reflexivity.
-    - destruct o as [u0 v0|u0 r0]; [destruct (url_eqb u u0); [reflexivity|]|]; exact IH.
+    induction pre as [|o pre IH]; simpl; [reflexivity|].
+    destruct o as [u0 k0 m0|u0 k0 r0]; [destruct (ckey_eqb q (u0, k0)); [reflexivity|]|]; exact IH.
   Qed.
-  Lemma variant_of_app_emit u pre u' r : variant_of u (pre ++ [Emit u' r]) = variant_of u pre.
+  Lemma mime_of_app_emit q pre u k r : mime_of q (pre ++ [Emit u k r]) = mime_of q pre.
   Proof.
-    unfold C19Cache.variant_of. induction pre as [|o pre IH]; simpl.
-    - reflexivity.
-    - destruct o as [u0 v0|u0 r0]; [destruct (url_eqb u u0); [reflexivity|]|]; exact IH.
+    induction pre as [|o pre IH]; simpl; [reflexivity|].
+    destruct o as [u0 k0 m0|u0 k0 r0]; [destruct (ckey_eqb q (u0, k0)); [reflexivity|]|]; exact IH.
   Qed.
-  Lemma variant_of_in u pre v : variant_of u pre = Some v -> In (Get u v) pre.
+  Lemma mime_of_in u k pre m : mime_of (u, k) pre = Some m -> In (Get u k m) pre.
   Proof.
-    unfold C19Cache.variant_of. induction pre as [|o pre IH]; simpl; [discriminate|].
-    destruct o as [u0 v0|u0 r0].
-    - destruct (url_eqb u u0) eqn:E.
-      + intros H; inversion H; subst. apply url_eqb_eq in E; subst. left; reflexivity.
+    induction pre as [|o pre IH]; simpl; [discriminate|].
+    destruct o as [u0 k0 m0|u0 k0 r0].
+    - destruct (ckey_eqb (u, k) (u0, k0)) eqn:E.
+      + intros H; inversion H; subst. apply ckey_eqb_eq in E; inversion E; subst. left; reflexivity.
       + intros H; right; exact (IH H).
     - intros H; right; exact (IH H).
   Qed.
-  Lemma variant_of_none_not_in u pre v : variant_of u pre = None -> ~ In (Get u v) pre.
+  Lemma mime_of_none_not_in u k pre m : mime_of (u, k) pre = None -> ~ In (Get u k m) pre.
   Proof.
-    unfold C19Cache.variant_of. induction pre as [|o pre IH]; simpl; [tauto|].
-    destruct o as [u0 v0|u0 r0].
-    - destruct (url_eqb u u0) eqn:E; [discriminate|].
-      intros H [K|K]; [inversion K; subst; rewrite url_eqb_refl in E; discriminate|exact (IH H K)].
+    induction pre as [|o pre IH]; simpl; [tauto|].
+    destruct o as [u0 k0 m0|u0 k0 r0].
+    - destruct (ckey_eqb (u, k) (u0, k0)) eqn:E; [discriminate|].
+      intros H [K|K]; [inversion K; subst; rewrite ckey_eqb_refl in E; discriminate|exact (IH H K)].
     - intros H [K|K]; [discriminate|exact (IH H K)].
   Qed.
 
-  Lemma lookup_app_other u c u' x : url_eqb u u' = false -> lookup u (c ++ [(u', x)]) = lookup u c.
+  Lemma lookup_app_other q c q' x : ckey_eqb q q' = false -> lookup q (c ++ [(q', x)]) = lookup q c.
   Proof.
-    intros E. induction c as [|[u0 x0] c IH]; simpl.
+    intros E. induction c as [|[q0 x0] c IH]; simpl.
     - rewrite E; reflexivity.
-    - destruct (url_eqb u u0); [reflexivity|exact IH].
+    - destruct (ckey_eqb q q0); [reflexivity|exact IH].
   Qed.
-  Lemma lookup_app_new u c x : lookup u c = None -> lookup u (c ++ [(u, x)]) = Some x.
+  Lemma lookup_app_new q c x : lookup q c = None -> lookup q (c ++ [(q, x)]) = Some x.
   Proof.
-    induction c as [|[u0 x0] c IH]; simpl.
-    - rewrite url_eqb_refl; reflexivity.
-    - destruct (url_eqb u u0); [discriminate|exact IH].
+    induction c as [|[q0 x0] c IH]; simpl.
+    - rewrite ckey_eqb_refl; reflexivity.
+    - destruct (ckey_eqb q q0); [discriminate|exact IH].
   Qed.
-  Lemma lookup_app_found u c e y : lookup u c = Some y -> lookup u (c ++ e) = Some y.
+  Lemma lookup_app_found q c e y : lookup q c = Some y -> lookup q (c ++ e) = Some y.
   Proof.
-    induction c as [|[u0 x0] c IH]; simpl; [discriminate|].
-    destruct (url_eqb u u0); [tauto|exact IH].
+    induction c as [|[q0 x0] c IH]; simpl; [discriminate|].
+    destruct (ckey_eqb q q0); [tauto|exact IH].
   Qed.
 
-  (* the invariant: the dictionary holds, for every URL requested so far, exactly what a cold load of the variant it
-     was first requested with gives *)
+  (* the invariant: the dictionary holds, for every key requested so far, exactly what a cold load with the mime type
+     it was first requested with gives *)
   Definition inv (pre : list op) (s : state) : Prop :=
-    forall u,
-      match variant_of u pre with
-      | None => lookup u (cache s) = None
-      | Some v =>
-          match cold u v with
-          | None => lookup u (cache s) = Some None
-          | Some d => exists cell, lookup u (cache s) = Some (Some cell) /\ nth_error (heap s) cell = Some d
+    forall q,
+      match mime_of q pre with
+      | None => lookup q (cache s) = None
+      | Some m =>
+          match cold (fst q) (snd q) m with
+          | None => lookup q (cache s) = Some None
+          | Some d => exists cell, lookup q (cache s) = Some (Some cell) /\ nth_error (heap s) cell = Some d
           end
       end.
 
   Lemma inv_empty : inv [] empty.
-  Proof. intros u; reflexivity. Qed.
+  Proof. intros q; reflexivity. Qed.
 
   Lemma step_ok pre s o :
-    inv pre s -> one_variant_per_url (pre ++ [o]) -> no_resampling_p [o] ->
+    inv pre s -> consistent_per_key (pre ++ [o]) ->
     let '(s', x) := step s o in inv (pre ++ [o]) s' /\ value_of x = ref_obs pre o.
   Proof.
-    intros I SV NR. destruct o as [u v|u r]; simpl.
+    intros I SV. destruct o as [u k m|u k r]; simpl.
     - (* Get *)
-      pose proof (I u) as Iu.
-      destruct (variant_of u pre) as [v0|] eqn:EV.
-      + (* seen before: v = v0 *)
-        assert (v = v0) as ->.
-        { apply (SV u); apply in_or_app; [right; left; reflexivity|left; exact (variant_of_in _ _ _ EV)]. }
-        assert (inv (pre ++ [Get u v0]) s) as I'.
-        { intros w. rewrite variant_of_app_get. pose proof (I w) as Iw.
-          destruct (variant_of w pre) eqn:EW; [exact Iw|].
-          destruct (url_eqb w u) eqn:E; [|exact Iw].
-          apply url_eqb_eq in E; subst. rewrite EV in EW; discriminate. }
-        destruct (cold u v0) as [d|] eqn:EC.
+      pose proof (I (u, k)) as Iu. simpl in Iu.
+      destruct (mime_of (u, k) pre) as [m0|] eqn:EV.
+      + assert (cold u k m = cold u k m0) as ->.
+        { apply (SV u k); apply in_or_app; [right; left; reflexivity|left; exact (mime_of_in _ _ _ _ EV)]. }
+        assert (inv (pre ++ [Get u k m]) s) as I'.
+        { intros w. rewrite mime_of_app_get. pose proof (I w) as Iw.
+          destruct (mime_of w pre) eqn:EW; [exact Iw|].
+          destruct (ckey_eqb w (u, k)) eqn:E; [|exact Iw].
+          apply ckey_eqb_eq in E; subst. rewrite EV in EW; discriminate. }
+        destruct (cold u k m0) as [d|] eqn:EC.
         * destruct Iu as [cell [L N]]. rewrite L, N. split; [exact I'|reflexivity].
         * rewrite Iu. split; [exact I'|reflexivity].
-      + (* first request *)
-        rewrite Iu. unfold C19Cache.cold.
-        assert (forall x hp, (forall w, url_eqb w u = false -> True) ->
-                  (match cold u v with
+      + rewrite Iu. unfold C19Cache.cold.
+        assert (forall x hp,
+                  (match cold u k m with
                    | None => x = None
                    | Some d => exists cell, x = Some cell /\ nth_error hp cell = Some d
                    end) ->
                   (forall cell d, nth_error (heap s) cell = Some d -> nth_error hp cell = Some d) ->
-                  inv (pre ++ [Get u v]) (mk (cache s ++ [(u, x)]) hp (fetched s ++ [u]))) as K.
-        { intros x hp _ Hx Hh w. rewrite variant_of_app_get. pose proof (I w) as Iw. simpl.
-          destruct (variant_of w pre) as [vw|] eqn:EW.
-          - destruct (cold w vw) as [dw|].
+                  inv (pre ++ [Get u k m]) (mk (cache s ++ [((u, k), x)]) hp (fetched s ++ [(u, k)]))) as K.
+        { intros x hp Hx Hh w. rewrite mime_of_app_get. pose proof (I w) as Iw. simpl.
+          destruct (mime_of w pre) as [mw|] eqn:EW.
+          - destruct (cold (fst w) (snd w) mw) as [dw|].
             + destruct Iw as [cell [L N]]. exists cell. split; [exact (lookup_app_found _ _ _ _ L)|exact (Hh _ _ N)].
             + exact (lookup_app_found _ _ _ _ Iw).
-          - destruct (url_eqb w u) eqn:E.
-            + apply url_eqb_eq in E; subst w.
-              destruct (cold u v) as [d|].
+          - destruct (ckey_eqb w (u, k)) eqn:E.
+            + apply ckey_eqb_eq in E; subst w. simpl.
+              destruct (cold u k m) as [d|].
               * destruct Hx as [cell [-> N]]. exists cell. split; [exact (lookup_app_new _ _ _ Iw)|exact N].
               * subst x. exact (lookup_app_new _ _ _ Iw).
             + rewrite (lookup_app_other _ _ _ _ E). exact Iw. }
         unfold C19Cache.cold in K.
         destruct (fetch u) as [b|].
-        * destruct (decode u b v) as [d|].
+        * destruct (decode u b k m) as [d|].
           -- split; [|reflexivity].
-             apply K; [auto| |].
+             apply K.
              ++ exists (length (heap s)). split; [reflexivity|].
                 rewrite nth_error_app2 by lia. rewrite Nat.sub_diag. reflexivity.
              ++ intros cell d0 N. rewrite nth_error_app1; [exact N|]. apply nth_error_Some. rewrite N; discriminate.
           -- split; [|reflexivity]. apply K; auto.
         * split; [|reflexivity]. apply K; auto.
-    - (* Emit with ratio 1 *)
-      assert (is_one r = true) as R by (apply (NR u); left; reflexivity).
-      assert (inv (pre ++ [Emit u r]) s) as I'.
-      { intros w. rewrite variant_of_app_emit. exact (I w). }
-      pose proof (I u) as Iu.
-      destruct (variant_of u pre) as [v0|].
-      + destruct (cold u v0) as [d|].
-        * destruct Iu as [cell [L N]]. rewrite L, N, R. split; [exact I'|reflexivity].
+    - (* Emit: the state does not change *)
+      assert (inv (pre ++ [Emit u k r]) s) as I'.
+      { intros w. rewrite mime_of_app_emit. exact (I w). }
+      pose proof (I (u, k)) as Iu. simpl in Iu.
+      destruct (mime_of (u, k) pre) as [m0|].
+      + destruct (cold u k m0) as [d|].
+        * destruct Iu as [cell [L N]]. rewrite L, N. split; [exact I'|reflexivity].
         * rewrite Iu. split; [exact I'|reflexivity].
       + rewrite Iu. split; [exact I'|reflexivity].
   Qed.
 
   Lemma run_ok h : forall pre s,
-    inv pre s -> one_variant_per_url (pre ++ h) -> no_resampling_p h ->
+    inv pre s -> consistent_per_key (pre ++ h) ->
     map value_of (snd (run s h)) = spec_run pre h.
   Proof.
-    induction h as [|o h IH]; intros pre s I SV NR; simpl; [reflexivity|].
+    induction h as [|o h IH]; intros pre s I SV; simpl; [reflexivity|].
     pose proof (step_ok pre s o I) as S.
     destruct (step s o) as [s1 x] eqn:E1.
     destruct S as [I1 V1].
-    - intros u v v' A B. apply (SV u); apply in_app_or in A; apply in_app_or in B; apply in_or_app.
+    - intros u k m m' A B. apply (SV u k); apply in_app_or in A; apply in_app_or in B; apply in_or_app.
       + destruct A as [A|[A|[]]]; [left; exact A|right; left; exact A].
       + destruct B as [B|[B|[]]]; [left; exact B|right; left; exact B].
-    - intros u r [A|[]]. apply (NR u). left; exact A.
     - specialize (IH (pre ++ [o]) s1 I1).
       destruct (run s1 h) as [s2 xs] eqn:E2. simpl in *.
-      rewrite V1. f_equal. apply IH.
-      + rewrite <- app_assoc. exact SV.
-      + intros u r A. apply (NR u). right; exact A.
+      rewrite V1. f_equal. apply IH. rewrite <- app_assoc. exact SV.
   Qed.
 
   (* ---- cache_is_transparent: every observation equals the cold, cache-less value ---- *)
+  Lemma transparent_if_consistent (h : list op) :
+    consistent_per_key h -> map value_of (snd (run empty h)) = spec_run [] h.
+  Proof. intros SV. exact (run_ok h [] empty inv_empty SV). Qed.
+
+  Lemma one_mime_consistent h : one_mime_per_key h -> consistent_per_key h.
+  Proof. intros O u k m m' A B. rewrite (O u k m m' A B). reflexivity. Qed.
+
   Theorem cache_is_transparent (h : list op) :
-    one_variant_per_url h -> no_resampling_p h ->
+    one_mime_per_key h -> map value_of (snd (run empty h)) = spec_run [] h.
+  Proof. intros SV. exact (transparent_if_consistent h (one_mime_consistent h SV)). Qed.
+
+  (* when the decoders do not tell forced mime types apart (what the correspondence stream measures on the
+     implementation at every run), there is no proviso at all: every history, every variant, every dpi ratio *)
+  Theorem cache_is_transparent_when_mime_is_ignored (h : list op) :
+    (forall u b k m m', decode u b k m = decode u b k m') ->
     map value_of (snd (run empty h)) = spec_run [] h.
-  Proof. intros SV NR. exact (run_ok h [] empty inv_empty SV NR). Qed.
+  Proof.
+    intros D. apply transparent_if_consistent. intros u k m m' _ _. unfold C19Cache.cold.
+    destruct (fetch u) as [b|]; [apply D|reflexivity].
+  Qed.
 
   (* warm = cold: after ANY earlier history `pre` on the same dictionary (other renders sharing the cache), a history
      that loads what it embeds observes what it observes on an empty dictionary *)
   Definition self_contained (h : list op) : Prop :=
-    forall h1 u r h2, h = h1 ++ Emit u r :: h2 -> exists v, In (Get u v) h1.
+    forall h1 u k r h2, h = h1 ++ Emit u k r :: h2 -> exists m, In (Get u k m) h1.
 
   Lemma app_same_length_tail {A} (l1 l2 a b : list A) :
     l1 ++ a = l2 ++ b -> length l1 = length l2 -> a = b.
@@ -218,77 +238,86 @@ Section CacheProofs.
   Qed.
 
   Lemma spec_run_shift pre h : forall done,
-    one_variant_per_url (pre ++ done ++ h) ->
-    (forall h1 u r h2, h = h1 ++ Emit u r :: h2 -> exists v, In (Get u v) (done ++ h1)) ->
+    consistent_per_key (pre ++ done ++ h) ->
+    (forall h1 u k r h2, h = h1 ++ Emit u k r :: h2 -> exists m, In (Get u k m) (done ++ h1)) ->
     spec_run (pre ++ done) h = spec_run done h.
   Proof.
     induction h as [|o h IH]; intros dn SV SC; simpl; [reflexivity|].
     f_equal.
-    - destruct o as [u v|u r]; simpl; [reflexivity|].
-      destruct (SC [] u r h eq_refl) as [v Hv]. rewrite app_nil_r in Hv.
-      destruct (variant_of u dn) as [v1|] eqn:E1.
-      + assert (In (Get u v1) (pre ++ dn)) as A by (apply in_or_app; right; exact (variant_of_in _ _ _ E1)).
-        destruct (variant_of u (pre ++ dn)) as [v2|] eqn:E2.
-        * assert (v2 = v1) as ->; [|reflexivity].
-          apply (SV u); rewrite app_assoc; apply in_or_app; left; [exact (variant_of_in _ _ _ E2)|exact A].
-        * exfalso. exact (variant_of_none_not_in _ _ _ E2 A).
-      + exfalso. exact (variant_of_none_not_in _ _ _ E1 Hv).
+    - destruct o as [u k m|u k r]; simpl; [reflexivity|].
+      destruct (SC [] u k r h eq_refl) as [m Hm]. rewrite app_nil_r in Hm.
+      destruct (mime_of (u, k) dn) as [m1|] eqn:E1.
+      + assert (In (Get u k m1) (pre ++ dn)) as A by (apply in_or_app; right; exact (mime_of_in _ _ _ _ E1)).
+        destruct (mime_of (u, k) (pre ++ dn)) as [m2|] eqn:E2.
+        * assert (cold u k m2 = cold u k m1) as ->; [|reflexivity].
+          apply (SV u k); rewrite app_assoc; apply in_or_app; left; [exact (mime_of_in _ _ _ _ E2)|exact A].
+        * exfalso. exact (mime_of_none_not_in _ _ _ _ E2 A).
+      + exfalso. exact (mime_of_none_not_in _ _ _ _ E1 Hm).
     - rewrite <- app_assoc. apply IH.
       + rewrite <- app_assoc. simpl. exact SV.
-      + intros h1 u r h2 E. destruct (SC (o :: h1) u r h2) as [v Hv]; [simpl; rewrite E; reflexivity|].
-        exists v. rewrite <- app_assoc. exact Hv.
+      + intros h1 u k r h2 E. destruct (SC (o :: h1) u k r h2) as [m Hm]; [simpl; rewrite E; reflexivity|].
+        exists m. rewrite <- app_assoc. exact Hm.
   Qed.
 
-  Theorem warm_cache_equals_cold_cache (pre h : list op) :
-    one_variant_per_url (pre ++ h) -> no_resampling_p (pre ++ h) -> self_contained h ->
+  Lemma warm_equals_cold_if_consistent (pre h : list op) :
+    consistent_per_key (pre ++ h) -> self_contained h ->
     map value_of (snd (run (fst (run empty pre)) h)) = map value_of (snd (run empty h)).
   Proof.
-    intros SV NR SC.
-    assert (one_variant_per_url h) as SVh.
-    { intros u v v' A B. apply (SV u); apply in_or_app; right; assumption. }
-    assert (no_resampling_p h) as NRh.
-    { intros u r A. apply (NR u). apply in_or_app; right; exact A. }
-    rewrite (cache_is_transparent h SVh NRh).
-    pose proof (cache_is_transparent (pre ++ h) SV NR) as T.
+    intros SV SC.
+    assert (consistent_per_key h) as SVh.
+    { intros u k m m' A B. apply (SV u k); apply in_or_app; right; assumption. }
+    rewrite (transparent_if_consistent h SVh).
+    pose proof (transparent_if_consistent (pre ++ h) SV) as T.
     rewrite run_app in T.
     destruct (run empty pre) as [s1 x1] eqn:E1. simpl.
     destruct (run s1 h) as [s2 x2] eqn:E2. simpl in T. simpl.
-    (* observations of h after pre are the tail of T *)
     assert (forall p q, spec_run p (q ++ h) = spec_run p q ++ spec_run (p ++ q) h) as SA.
     { intros p q. revert p. induction q as [|o q IHq]; intros p; simpl.
       - rewrite app_nil_r. reflexivity.
       - rewrite IHq. rewrite <- app_assoc. reflexivity. }
     rewrite SA in T. rewrite map_app in T. simpl in T.
     assert (length (map value_of x1) = length (spec_run [] pre)) as L.
-    { pose proof (cache_is_transparent pre) as P. rewrite E1 in P. simpl in P. rewrite P; [reflexivity| |].
-      - intros u v v' A B. apply (SV u); apply in_or_app; left; assumption.
-      - intros u r A. apply (NR u). apply in_or_app; left; exact A. }
+    { pose proof (transparent_if_consistent pre) as P. rewrite E1 in P. simpl in P. rewrite P; [reflexivity|].
+      intros u k m m' A B. apply (SV u k); apply in_or_app; left; assumption. }
     apply app_same_length_tail in T; [|exact L].
     rewrite T.
     pose proof (spec_run_shift pre h []) as SH. rewrite app_nil_r in SH. apply SH.
     - simpl. exact SV.
-    - intros h1 u r h2 E. simpl. exact (SC h1 u r h2 E).
+    - intros h1 u k r h2 E. simpl. exact (SC h1 u k r h2 E).
   Qed.
 
-  (* ---- failures are cached: the code stores None under the URL ---- *)
-  Theorem failed_load_is_cached (s : state) (u : Url) (v : Variant) :
-    lookup u (cache s) = None -> cold u v = None ->
-    let '(s', x) := step s (Get u v) in
-    x = OGet None /\ lookup u (cache s') = Some None /\
-    forall v', step s' (Get u v') = (s', OGet None).      (* no second fetch, whatever the variant *)
+  Theorem warm_cache_equals_cold_cache (pre h : list op) :
+    one_mime_per_key (pre ++ h) -> self_contained h ->
+    map value_of (snd (run (fst (run empty pre)) h)) = map value_of (snd (run empty h)).
+  Proof. intros SV. exact (warm_equals_cold_if_consistent pre h (one_mime_consistent _ SV)). Qed.
+
+  (* ---- embedding an image (any dpi ratio) leaves the dictionary and the cached objects as they are ---- *)
+  Theorem embedding_leaves_the_cache_unchanged (s : state) (u : Url) (k : Key) (r : Ratio) :
+    fst (step s (Emit u k r)) = s.
   Proof.
-    intros L C. destruct (step s (Get u v)) as [s' x] eqn:E.
-    assert (x = OGet None /\ lookup u (cache s') = Some None) as [A B].
+    simpl. destruct (lookup (u, k) (cache s)) as [[cell|]|]; [|reflexivity|reflexivity].
+    destruct (nth_error (heap s) cell); reflexivity.
+  Qed.
+
+  (* ---- failures are cached: the code stores None under the key ---- *)
+  Theorem failed_load_is_cached (s : state) (u : Url) (k : Key) (m : Mime) :
+    lookup (u, k) (cache s) = None -> cold u k m = None ->
+    let '(s', x) := step s (Get u k m) in
+    x = OGet None /\ lookup (u, k) (cache s') = Some None /\
+    forall m', step s' (Get u k m') = (s', OGet None).      (* no second fetch for this key *)
+  Proof.
+    intros L C. destruct (step s (Get u k m)) as [s' x] eqn:E.
+    assert (x = OGet None /\ lookup (u, k) (cache s') = Some None) as [A B].
     { simpl in E. rewrite L in E. unfold C19Cache.cold in C.
       destruct (fetch u) as [b|]; [rewrite C in E|]; inversion E; subst; simpl;
         (split; [reflexivity|exact (lookup_app_new _ _ _ L)]). }
     split; [exact A|split; [exact B|]].
-    intros v'. simpl. rewrite B. reflexivity.
+    intros m'. simpl. rewrite B. reflexivity.
   Qed.
 
-  (* ---- every URL is fetched at most once per dictionary, whatever the history ---- *)
+  (* ---- the fetcher is called at most once per key and dictionary, whatever the history ---- *)
   Definition keys_inv (s : state) : Prop :=
-    fetched s = map fst (cache s) /\ NoDup (fetched s) /\ forall u, lookup u (cache s) = None -> ~ In u (fetched s).
+    fetched s = map fst (cache s) /\ NoDup (fetched s) /\ forall q, lookup q (cache s) = None -> ~ In q (fetched s).
 
   Lemma NoDup_app_one {A} (l : list A) (x : A) : NoDup l -> ~ In x l -> NoDup (l ++ [x]).
   Proof.
@@ -300,92 +329,87 @@ Section CacheProofs.
       + apply IH; [assumption|]. intros K. apply I. right; exact K.
   Qed.
 
-  Lemma lookup_none_app u c u' x : lookup u (c ++ [(u', x)]) = None -> lookup u c = None /\ url_eqb u u' = false.
+  Lemma lookup_none_app q c q' x : lookup q (c ++ [(q', x)]) = None -> lookup q c = None /\ ckey_eqb q q' = false.
   Proof.
-    induction c as [|[u0 x0] c IH]; simpl.
-    - destruct (url_eqb u u'); [discriminate|auto].
-    - destruct (url_eqb u u0); [discriminate|exact IH].
+    induction c as [|[q0 x0] c IH]; simpl.
+    - destruct (ckey_eqb q q'); [discriminate|auto].
+    - destruct (ckey_eqb q q0); [discriminate|exact IH].
   Qed.
 
   Lemma keys_step s o : keys_inv s -> keys_inv (fst (step s o)).
   Proof.
     intros [F [N L]].
-    assert (forall u x, lookup u (cache s) = None ->
-              keys_inv (mk (cache s ++ [(u, x)]) (heap s) (fetched s ++ [u]))) as K1.
-    { intros u x Lu. split; [|split]; simpl.
+    assert (forall q x hp, lookup q (cache s) = None ->
+              keys_inv (mk (cache s ++ [(q, x)]) hp (fetched s ++ [q]))) as K1.
+    { intros q x hp Lq. split; [|split]; simpl.
       - rewrite map_app, F. reflexivity.
-      - apply NoDup_app_one; [exact N|exact (L u Lu)].
+      - apply NoDup_app_one; [exact N|exact (L q Lq)].
       - intros w Lw A. apply lookup_none_app in Lw. destruct Lw as [Lw E].
         apply in_app_or in A. destruct A as [A|[A|[]]]; [exact (L w Lw A)|].
-        subst. rewrite url_eqb_refl in E. discriminate. }
-    assert (forall u x d, lookup u (cache s) = None ->
-              keys_inv (mk (cache s ++ [(u, x)]) (heap s ++ [d]) (fetched s ++ [u]))) as K2.
-    { intros u x d Lu. destruct (K1 u x Lu) as [A [B C]]. split; [exact A|split; [exact B|exact C]]. }
+        subst. rewrite ckey_eqb_refl in E. discriminate. }
     assert (keys_inv s) as K0 by (split; [exact F|split; [exact N|exact L]]).
-    assert (forall hp, keys_inv (mk (cache s) hp (fetched s))) as K3
-      by (intros hp; split; [exact F|split; [exact N|exact L]]).
-    destruct o as [u v|u r]; simpl.
-    - destruct (lookup u (cache s)) as [[cell|]|] eqn:Lu; simpl; [exact K0|exact K0|].
-      destruct (fetch u) as [b|]; [destruct (decode u b v) as [d|]|]; simpl.
-      + apply K2; exact Lu.
-      + apply K1; exact Lu.
-      + apply K1; exact Lu.
-    - destruct (lookup u (cache s)) as [[cell|]|]; simpl; try exact K0.
-      destruct (nth_error (heap s) cell); simpl; try exact K0.
-      destruct (is_one r); simpl; [exact K0|apply K3].
+    destruct o as [u k m|u k r]; simpl.
+    - destruct (lookup (u, k) (cache s)) as [[cell|]|] eqn:Lu; simpl; [exact K0|exact K0|].
+      destruct (fetch u) as [b|]; [destruct (decode u b k m) as [d|]|]; simpl; apply K1; exact Lu.
+    - destruct (lookup (u, k) (cache s)) as [[cell|]|]; simpl; try exact K0.
+      destruct (nth_error (heap s) cell); simpl; exact K0.
   Qed.
 
-  Theorem each_url_fetched_at_most_once (h : list op) : NoDup (fetched (fst (run empty h))).
+  Theorem each_key_fetched_at_most_once (h : list op) : NoDup (fetched (fst (run empty h))).
   Proof.
     assert (forall s, keys_inv s -> keys_inv (fst (run s h))) as K.
     { induction h as [|o h IH]; intros s I; simpl; [exact I|].
       pose proof (keys_step s o I) as I1. destruct (step s o) as [s1 x]. simpl in I1.
       specialize (IH s1 I1). destruct (run s1 h) as [s2 xs]. exact IH. }
-    apply K. split; [reflexivity|split; [constructor|intros u _ []]].
+    apply K. split; [reflexivity|split; [constructor|intros q _ []]].
   Qed.
 End CacheProofs.
 
-(* ---- where transparency stops: the two ways the dictionary leaks one render into another ---- *)
+(* ---- the two ways the dictionary leaked one render into another before images.py was repaired (2960b4c, 6683f8f and
+   the image-orientation fix before them), now positive statements about the instance used by the correspondence ---- *)
 Open Scope Z_scope.
 
-(* (1) the key is the URL alone.  Variants 0 and 1 of URL 7 (say image-orientation none / 90deg, or dpi unset / 96):
-   the second request gets the object built for the first.  [listed finding c13:image-cache-ignores-orientation for the
-   orientation; the same holds for dpi, optimize_images, jpeg_quality and the forced mime type] *)
-Definition two_variants : list (op Z Z Z) := [Get 7 0; Get 7 1].
+(* (1) two key parts of one URL (image-orientation none / 90deg, dpi unset / 96, ...): each request gets its own load *)
+Definition two_variants : list (op Z Z Z Z) := [Get 7 0 0; Get 7 1 0; Get 7 0 0].
 
-Theorem cache_not_transparent_across_variants :
-  let run := run Z Z unit term Z Z.eqb (fun r => r =? 1) (t_fetch []) (t_decode [(7, 0); (7, 1)]) t_resample in
-  map (value_of term) (snd (run empty two_variants)) = [Some (7, 0, []); Some (7, 0, [])] /\
-  spec_run Z Z unit term Z Z.eqb (t_fetch []) (t_decode [(7, 0); (7, 1)]) [] two_variants = [Some (7, 0, []); Some (7, 1, [])].
+Theorem cache_separates_key_parts :
+  map (value_of term) (snd (run_t [] [(7, 0, 0); (7, 1, 0)] empty two_variants)) =
+    [Some (7, 0, 0, []); Some (7, 1, 0, []); Some (7, 0, 0, [])] /\
+  length (fetched (fst (run_t [] [(7, 0, 0); (7, 1, 0)] empty two_variants))) = 2%nat.
 Proof. split; reflexivity. Qed.
 
-(* (2) the dpi option: get_x_object stores the down-sampled data in the cached object.  Render A embeds URL 7 with
-   ratio 5 (a small box), render B shares the dictionary and embeds it with ratio 1: B gets A's thumbnail. *)
-Definition resampled_then_reused : list (op Z Z Z) := [Get 7 0; Emit 7 5; Get 7 0; Emit 7 1].
+(* (2) the dpi option: render A embeds URL 7 with ratio 5 (a small box), render B shares the dictionary and embeds it
+   with ratio 1: B gets the full image, and A's thumbnail is made from the full image each time *)
+Definition resampled_then_reused : list (op Z Z Z Z) := [Get 7 0 0; Emit 7 0 5; Get 7 0 0; Emit 7 0 1; Emit 7 0 5].
 
-Theorem cache_not_transparent_after_resampling :
-  let run := run Z Z unit term Z Z.eqb (fun r => r =? 1) (t_fetch []) (t_decode [(7, 0)]) t_resample in
-  map (value_of term) (snd (run empty resampled_then_reused)) =
-    [Some (7, 0, []); Some (7, 0, [5]); Some (7, 0, [5]); Some (7, 0, [5])] /\
-  map (value_of term) (snd (run empty [Get 7 0; Emit 7 1])) = [Some (7, 0, []); Some (7, 0, [])].
+Theorem resampling_is_not_remembered :
+  map (value_of term) (snd (run_t [] [(7, 0, 0)] empty resampled_then_reused)) =
+    [Some (7, 0, 0, []); Some (7, 0, 0, [5]); Some (7, 0, 0, []); Some (7, 0, 0, []); Some (7, 0, 0, [5])].
+Proof. reflexivity. Qed.
+
+(* what remains outside the key: the forced mime type.  If a decoder told two mime types apart, the second request of
+   the key would get the first one's image (model-level witness; the correspondence stream checks at every run that
+   the measured decoders do NOT tell them apart, see the obligation premise:decode-ignores-forced-mime) *)
+Theorem cache_key_ignores_forced_mime_type :
+  map (value_of term) (snd (run_t [] [(7, 0, 0); (7, 0, 1)] empty [Get 7 0 0; Get 7 0 1])) = [Some (7, 0, 0, []); Some (7, 0, 0, [])] /\
+  spec_run Z Z Z unit term Z Z.eqb Z.eqb (fun r => r =? 1) (t_fetch []) (t_decode [(7, 0, 0); (7, 0, 1)]) t_resample [] [Get 7 0 0; Get 7 0 1] =
+    [Some (7, 0, 0, []); Some (7, 0, 1, [])].
 Proof. split; reflexivity. Qed.
 
-(* the hypotheses of cache_is_transparent are satisfiable by a history that exercises hits, misses, a failing URL and
-   two renders sharing the dictionary *)
-Definition example_history : list (op Z Z Z) :=
-  [Get 1 0; Get 2 3; Get 9 0; Emit 1 1; Get 1 0; Get 9 0; Emit 2 1; Emit 1 1; Emit 9 1].
+(* the hypothesis of cache_is_transparent is satisfiable by a history that exercises hits, misses, a failing URL, two key
+   parts of one URL, re-sampling and two renders sharing the dictionary *)
+Definition example_history : list (op Z Z Z Z) :=
+  [Get 1 0 0; Get 2 3 1; Get 9 0 0; Emit 1 0 4; Get 1 0 0; Get 1 2 0; Get 9 0 0; Emit 2 3 1; Emit 1 0 1; Emit 9 0 1; Emit 1 2 4].
 
 Example cache_is_transparent_example :
-  one_variant_per_url Z Z Z example_history /\ no_resampling_p Z Z Z (fun r => r =? 1) example_history /\
-  map (value_of term) (snd (run Z Z unit term Z Z.eqb (fun r => r =? 1) (t_fetch [9]) (t_decode [(1, 0); (2, 3)]) t_resample
-                             empty example_history)) =
-  [Some (1, 0, []); Some (2, 3, []); None; Some (1, 0, []); Some (1, 0, []); None; Some (2, 3, []); Some (1, 0, []); None].
+  one_mime_per_key Z Z Z Z example_history /\
+  map (value_of term) (snd (run_t [9] [(1, 0, 0); (2, 3, 1); (1, 2, 0)] empty example_history)) =
+  [Some (1, 0, 0, []); Some (2, 3, 1, []); None; Some (1, 0, 0, [4]); Some (1, 0, 0, []); Some (1, 2, 0, []); None;
+   Some (2, 3, 1, []); Some (1, 0, 0, []); None; Some (1, 2, 0, [4])].
 Proof.
-  split; [|split].
-  - intros u v v' A B. simpl in A, B.
+  split.
+  - intros u k m m' A B. simpl in A, B.
     repeat (destruct A as [A|A]; [try discriminate; inversion A; subst; clear A|]); try contradiction;
     repeat (destruct B as [B|B]; [try discriminate; inversion B; subst; clear B|]); try contradiction; reflexivity.
-  - intros u r A. simpl in A.
-    repeat (destruct A as [A|A]; [try discriminate; inversion A; subst; reflexivity|]). contradiction.
   - reflexivity.
 Qed.
